@@ -110,7 +110,15 @@ func doSerializeStructToJSON(
 			continue
 		}
 
-		data, err := json.Marshal(valField.Interface())
+		// marshal through the field's address where it has one, so that a
+		// marshaler with a pointer receiver is used, as it is when the
+		// whole structure is handed to json.Marshal
+		toMarshal := valField.Interface()
+		if valField.CanAddr() {
+			toMarshal = valField.Addr().Interface()
+		}
+
+		data, err := json.Marshal(toMarshal)
 		if err != nil {
 			return fmt.Errorf("error marshaling field %q: %w",
 				typeField.Name,
